@@ -209,6 +209,14 @@ def build(features, pid="P1", seed=0):
     if "slur_barline" in f:
         a, b = B.byid["n5"], B.byid["n6"]
         part.add(sc.Slur(a, b), a.start.t, b.end.t)
+    if "tuplet_cross_voice" in f and "n4" in B.byid:
+        part.remove(B.byid["n4"])
+        del B.byid["n4"]
+        note("x0", m2 + 2, Fraction(1, 3), "G", 4, voice=3, staff=1, tuplet=(3, 2, "eighth"))
+        note("x1", m2 + 2 + Fraction(1, 3), Fraction(1, 3), "A", 4, voice=1, staff=1, tuplet=(3, 2, "eighth"))
+        note("x2", m2 + 2 + Fraction(2, 3), Fraction(1, 3), "B", 4, voice=1, staff=1, tuplet=(3, 2, "eighth"))
+        a, b = B.byid["x0"], B.byid["x2"]
+        part.add(sc.Tuplet(a, b, actual_notes=3, normal_notes=2, actual_type="eighth", normal_type="eighth"), a.start.t, b.end.t)
     if "tuplet" in f and "t0" in B.byid:
         a, b = B.byid["t0"], B.byid["t2"]
         part.add(sc.Tuplet(a, b, actual_notes=3, normal_notes=2, actual_type="eighth", normal_type="eighth"), a.start.t, b.end.t)
@@ -216,6 +224,10 @@ def build(features, pid="P1", seed=0):
     def direction(text, q0, q1=None):
         for d in parse_direction(text):
             part.add(d, B.t(q0), B.t(q1) if q1 is not None else None)
+    if "direction_inside_last_note" in f:
+        part.add(sc.ConstantLoudnessDirection("mf"), B.t(m1 + 3))
+        for d in parse_direction("dolce"):
+            part.add(d, B.t(m2 + Fraction(7, 2)))
     if "dynamics_both_staves" in f:
         part.add(sc.ConstantLoudnessDirection("p"), B.t(m1))
         part.add(sc.ConstantLoudnessDirection("p", staff=2), B.t(m1))
@@ -331,6 +343,9 @@ def catalogue(tier="quick"):
         ("two_voices_divisions_change_between_notes", ["two_voices", "divisions_change_mid", "split_at_change"]),
         ("two_staves_divisions_change_between_notes_pickup", ["pickup", "two_staves", "divisions_change_mid", "split_at_change", "divisions_change"]),
         ("same_dynamic_on_both_staves", ["two_staves", "dynamics_both_staves"]),
+        ("two_voices_direction_inside_the_last_note_of_voice_1", ["two_voices", "direction_inside_last_note"]),
+        ("two_staves_direction_inside_the_last_note_pickup", ["pickup", "two_staves", "direction_inside_last_note", "tie_barline"]),
+        ("tuplet_that_starts_in_voice_3_and_ends_in_voice_1", ["tuplet_cross_voice"]),
         ("polyphony_ties", ["polyphony", "tie_barline", "tie_cross_voice", "two_staves"]),
     ]
     out += combos
